@@ -40,14 +40,13 @@ Definition verify_data (p : pubkey) (d : data) (s : dsig) : bool :=
 Definition is_expected_sequencer (g : genesis) (sh : sheader) : bool :=
   addr_eqb (h_proposer (sh_hdr sh)) (g_proposer g) && validate_basic sh.
 
-(* ---- block/manager.go:1082 isValidSignedData.  [Txs == nil] is subsumed by the caller's
-   [len(Txs) == 0] test (retriever.go:167).  An absent public key comes, after FromProto
-   (serialization.go:391-402), with an empty address, so with a non-empty genesis address the
-   address test fails before the nil key is used. *)
+(* ---- block/manager.go isValidSignedData (after the fix "bind the signer's address to the signer's
+   public key": PubKey != nil and Signer.Address == KeyAddress(PubKey)).  [Txs == nil] is subsumed by the
+   caller's [len(Txs) == 0] test (retriever.go:167). *)
 Definition is_valid_signed_data (g : genesis) (sd : sdata) : bool :=
   addr_eqb (sg_addr (sd_signer sd)) (g_proposer g) &&
   match sg_pub (sd_signer sd) with
-  | Some p => verify_data p (sd_data sd) (sd_sig sd)
+  | Some p => addr_eqb (sg_addr (sd_signer sd)) (key_address p) && verify_data p (sd_data sd) (sd_sig sd)
   | None => false
   end.
 
@@ -65,7 +64,7 @@ Record da_out := {
   o_hevent : option sheader;       (* sent on headerInCh *)
   o_dmark : option commitment;     (* dataCache.SetDAIncluded(DACommitment) *)
   o_devent : option data;          (* sent on dataInCh *)
-  o_panic : bool                   (* nil dereference in the retrieve goroutine *)
+  o_panic : bool                   (* a panic in the retrieve goroutine: never, since the nil-Metadata fix (kept as an observable) *)
 }.
 Definition da_nothing (handled : bool) : da_out :=
   {| o_handled := handled; o_hmark := None; o_hevent := None; o_dmark := None; o_devent := None; o_panic := false |}.
@@ -86,20 +85,15 @@ Definition da_admit (g : genesis) (hseen : list header) (dseen : list commitment
               o_hevent := if mem_header (sh_hdr sh) hseen then None else Some sh;   (* :147-155 *)
               o_dmark := None; o_devent := None; o_panic := false |}
   | BData sd =>
-      match d_txs (sd_data sd) with
-      | [] => da_nothing false                                    (* :167-170 *)
-      | _ =>
-        if negb (is_valid_signed_data g sd) then da_nothing false (* :173-176 *)
-        else match d_meta (sd_data sd) with
-             | None =>                                            (* :179 marks, :181 signedData.Height() dereferences nil Metadata *)
-                 {| o_handled := false; o_hmark := None; o_hevent := None;
-                    o_dmark := Some (d_txs (sd_data sd)); o_devent := None; o_panic := true |}
-             | Some _ =>
-                 {| o_handled := false; o_hmark := None; o_hevent := None;
-                    o_dmark := Some (d_txs (sd_data sd));         (* :179 *)
-                    o_devent := if mem_commitment (d_txs (sd_data sd)) dseen then None else Some (sd_data sd);  (* :182-190 *)
-                    o_panic := false |}
-             end
+      match d_txs (sd_data sd), d_meta (sd_data sd) with
+      | [], _ => da_nothing false                                 (* :167-170 *)
+      | _, None => da_nothing false                               (* :171-175, since the fix: no Metadata -> ignored *)
+      | _, Some _ =>
+        if negb (is_valid_signed_data g sd) then da_nothing false (* :178-181 *)
+        else {| o_handled := false; o_hmark := None; o_hevent := None;
+                o_dmark := Some (d_txs (sd_data sd));             (* :184 *)
+                o_devent := if mem_commitment (d_txs (sd_data sd)) dseen then None else Some (sd_data sd);  (* :187-195 *)
+                o_panic := false |}
       end
   end.
 
@@ -374,27 +368,9 @@ Definition signed_by (pk : key) (sh : sheader) : bool :=
 Definition data_signed_by (pk : key) (sd : sdata) : bool :=
   match sd_sig sd with DSig k d => (k =? pk)%N && data_eqb (sd_data sd) d | _ => false end.
 
-(* the decidable guard of the _partial theorems: the signer's address is the address of the signer's key *)
-Definition signer_consistent (sg : signer) : bool :=
+Definition signer_consistent (sg : signer) : bool :=      (* what ValidateBasic / isValidSignedData enforce since the fix *)
   match sg_pub sg with Some p => addr_eqb (sg_addr sg) (key_address p) | None => false end.
 Definition names_proposer (pk : key) (a : addr) : bool := addr_eqb a (Addr pk).
-
-(* adversarial traffic that today's checks do stop *)
-Definition harmless (pk : key) (i : item) : bool :=
-  match i with
-  | IInitH _ | IInitD _ => false
-  | IDA (BHdr sh) => negb (signed_by pk sh) &&
-                     (signer_consistent (sh_signer sh) || negb (names_proposer pk (h_proposer (sh_hdr sh))))
-  | IDA (BData sd) => negb (data_signed_by pk sd) &&
-                      (signer_consistent (sd_signer sd) || negb (names_proposer pk (sg_addr (sd_signer sd))))
-  | IDA _ => true
-  | IGossipH u => negb (names_proposer pk (h_proposer (sh_hdr u)))
-  | IGossipD _ linked => negb linked
-  end.
-
-(* genuine traffic initialises the header store with a header naming the proposer *)
-Definition init_ok (pk : key) (i : item) : bool :=
-  match i with IInitH sh => names_proposer pk (h_proposer (sh_hdr sh)) | _ => true end.
 
 (* an item built without the proposer's private key: it does not carry [Sig pk <its own content>].
    P2P data carries no signature at all, so every P2P data item qualifies. *)
@@ -408,13 +384,23 @@ Definition adversarial (pk : key) (i : item) : bool :=
   | IGossipD _ _ => true
   end.
 
-(* every header-bearing item has a signer whose address is derived from its key (what a repaired
-   ValidateBasic would enforce) *)
-Definition item_consistent (i : item) : bool :=
+(* adversarial traffic on the DA layer: any blobs whatsoever that are not signed by the proposer *)
+Definition da_adversarial (pk : key) (i : item) : bool :=
+  match i with IDA _ => adversarial pk i | _ => false end.
+
+(* adversarial traffic that today's checks do stop: everything on the DA layer; header gossip that does not
+   name the proposer; data gossip that does not hash-link to the data head *)
+Definition harmless (pk : key) (i : item) : bool :=
   match i with
-  | IInitH sh | IGossipH sh | IDA (BHdr sh) => signer_consistent (sh_signer sh)
-  | _ => true
+  | IInitH _ | IInitD _ => false
+  | IDA _ => adversarial pk i
+  | IGossipH u => negb (names_proposer pk (h_proposer (sh_hdr u)))
+  | IGossipD _ linked => negb linked
   end.
+
+(* genuine traffic initialises the header store with a header naming the proposer *)
+Definition init_ok (pk : key) (i : item) : bool :=
+  match i with IInitH sh => names_proposer pk (h_proposer (sh_hdr sh)) | _ => true end.
 
 Definition hstore_inv (pk : key) (s : nstate) : Prop :=
   match n_hstore s with [] => True | t :: _ => names_proposer pk (h_proposer (sh_hdr t)) = true end.
